@@ -1,5 +1,7 @@
 import BevySyncModel.Proofs.Conn
 import BevySyncModel.Generated.Conn
+import BevySyncModel.Generated.Sync
+import BevySyncModel.Generated.Snap
 /-! # C15 — published connection states and InitialSyncFinished are truthful -/
 namespace BevySync
 namespace Props
@@ -14,6 +16,13 @@ theorem C15_code_tie :
     Generated.connClientDisconnectLegacy = false ∧ Generated.connConnectingOnlyFromDisconnected = false ∧
     Generated.connReplicationGated = true ∧
     Generated.connVerifyChecksTransport = true ∧ Generated.connSyncFinishedSites = true := by decide
+
+/-- (tie) "by the end of that frame its entities, components and links equal the host's snapshot": the snapshot is sent in
+order and followed by `FinishedInitialSync`, the client's receive loop handles every message it takes from the ordered
+channel, and the spawn precedes the components of an entity -/
+theorem C15_snapshot_delivery_tie :
+    Generated.snapSentInOrderThenFinished = true ∧ Generated.recvHandlesEveryMessage = true ∧
+    Generated.snapSpawnBeforeComponents = true := by decide
 
 /-- the invariants hold in every state reachable by any sequence of start-hosting / stop / connect /
 disconnect / reconnect operations, handshake events and frames -/
